@@ -35,6 +35,9 @@ TIE_A = ["Tables.export", "code:fuzzylite.rule.Rule.parse",
 TIE_A += [f"code:fuzzylite.importer.FllImporter.{m}" for m in (
     "extract_key_value", "extract_value", "boolean", "range", "tnorm", "snorm", "activation", "defuzzifier", "term", "rule",
     "input_variable", "output_variable", "rule_block", "_process", "engine")]
+# the importer's factory look-ups (theorems `code_importTnorm` / `code_importSnorm`; the callee is tied in C17)
+TIE_A += ["code:fuzzylite.importer.FllImporter.tnorm", "code:fuzzylite.importer.FllImporter.snorm",
+          "code:fuzzylite.factory.ConstructionFactory.construct"]
 RULE = ("generated engines over every registered term class (incl. Discrete, Linear, Function, Constant), norm, defuzzifier "
         "(resolution / type), activation method (parameters), descriptions, disabled variables / blocks, heights and weights "
         "(1 | far from 1 | inside the tolerance | around the rounding boundary of the printed form), infinite / NaN ranges, NaN / "
